@@ -440,6 +440,9 @@ func (g *G) genUpdate(v view) Op {
 	}
 	if g.family == "sinkfail" && r.Chance(75) || r.Chance(6) {
 		o.Fail = r.Intn(4)
+		if r.Chance(50) {
+			o.Fail = r.Intn(14) // deep into the list: the lowest node of some root is gone, a later one stays
+		}
 	}
 	return o
 }
@@ -567,6 +570,11 @@ func (g *G) Next(in *inst, step int) (Op, bool) {
 		if o.K == "Update" {
 			nq = 3 + r.Intn(2)
 			g.queue = append(g.queue, Op{K: "Head"})
+			// heads from the lowest known node of some roots: where re-attached blocks show
+			for k := 0; k < 2 && len(v.roots) > 0; k++ {
+				root := v.roots[r.Intn(len(v.roots))]
+				g.queue = append(g.queue, Op{K: "FindHead", A: []uint64{root, v.low[root] + uint64(r.Intn(3))}})
+			}
 		}
 	}
 	for i := 0; i < nq; i++ {
